@@ -87,7 +87,8 @@ def run_trigger(act, seam, st):
         act.ocp.solve_limited()
     elif w == "sample":
         x = st.get("x")
-        act.ocp.sample(act.syms[x] if x else act.ocp.t, grid=st.get("grid", "control"))
+        node = act.node(st.get("stage"))
+        node.ocp.sample(node.syms[x] if x else node.ocp.t, grid=st.get("grid", "control"))
     elif w == "to_function":
         act.ocp.to_function("f", [], [act.ocp.sample(act.ocp.t, grid="control")[1]])
     else:
@@ -113,6 +114,28 @@ def with_method(ops, cls, r):
                 m.setdefault("intg", "rk")
             op = dict(op, m=m)
         out.append(op)
+    return out
+
+
+def as_substage(steps, name="s1"):
+    """the same OCP declared as the only stage of an otherwise empty parent"""
+    out = []
+    for st in steps:
+        st = dict(st)
+        k = st["op"]
+        if k == "new_ocp":
+            out.append({"op": "new_ocp"})
+            d = {"op": "stage", "name": name}
+            for key in ("T", "t0"):
+                if key in st:
+                    d[key] = st[key]
+            out.append(d)
+            continue
+        if k == "solver" or (k == "trigger" and st["what"] != "sample") or k == "omission":
+            out.append(st)
+            continue
+        st["stage"] = name
+        out.append(st)
     return out
 
 
@@ -232,7 +255,7 @@ def cases_for(ops, sp, cls, r):
 # ----------------------------------------------------------------------------------------------
 def run_seed(seed):
     """one unit of work = (base OCP seed // 3, method seed % 3); the matrix for it is enumerated completely"""
-    base_seed, mi = seed // 3, seed % 3
+    base_seed, mi, sub = seed // 6, seed % 3, (seed // 3) % 2 == 1
     r = random.Random(base_seed)
     import os
 
@@ -256,14 +279,20 @@ def run_seed(seed):
     methods = [m for m in methods if m == METHODS[mi]]
     result["config"]["method"] = METHODS[mi]
     result["config"]["base_seed"] = base_seed
+    result["config"]["placement"] = "sub-stage" if sub else "top-level"
+    place = as_substage if sub else (lambda x: x)
     for cls in methods:
         mops = with_method(ops, cls, r)
-        ctrl = execute_case(mops + jcopy(TRIGGERS["solve"]), probe_seed)
+        ctrl = execute_case(place(mops + jcopy(TRIGGERS["solve"])), probe_seed)
         log.append([cls, "control", ctrl["outcome"]])
         if ctrl["outcome"] != "control-ok":
             counts["control_failed"] += 1
             continue
         for key, steps in cases_for(mops, sp, cls, r):
+            if sub and key[0] == "no_solver":
+                pass  # the solver belongs to the parent: same case, still meaningful
+            steps = place(steps)
+            key = key[:2] + (key[2] + ("/sub-stage" if sub else ""),) + key[3:]
             counts["cases"] += 1
             try:
                 out = execute_case(steps, probe_seed)
